@@ -153,6 +153,9 @@ def seqfun_pop_fact(it, T, h, tl):
     for (name, T2, now, d) in it.ctx.__dict__.get("seqfun_apps", []):
         if T2.eq(T):
             _seqfun_unfold(it, name, T, now, d, h, tl)
+    for (name, T2) in it.ctx.__dict__.get("duepred_apps", []):
+        if T2.eq(T):
+            _duepred_unfold(it, name, T, h, tl)
 
 
 # functions of delay's queue: records (notification, due) = tup2(tup2(int2val(kind), payload), int2val(due)); kind 1 = element,
@@ -188,6 +191,65 @@ def _duefun_unfold(it, name, T, now, h=None, tl=None):
     else:
         body = z3.If(due, z3.If(is_elem, f(tl, now), E), T)
     it.ctx.assume(z3.Implies(nonempty, f(T, now) == body))
+
+
+# well-formedness of delay's queue (same records): unary predicates, same ground-unfolding scheme
+#   all_elements(T)     every record is an element
+#   completion_last(T)  a completion record, if there is one, is the last record
+DUEPREDS = {
+    "all_elements": z3.Function("all_elements", smt.SeqVal, z3.BoolSort()),
+    "completion_last": z3.Function("completion_last", smt.SeqVal, z3.BoolSort()),
+}
+
+
+def rec_is_elem(h):
+    return smt.val2int(smt.tup2_0(smt.tup2_0(h))) == 1
+
+
+def _duepred_unfold(it, name, T, h=None, tl=None):
+    f = DUEPREDS[name]
+    n = z3.Length(T)
+    if h is None:
+        h, tl = T[0], z3.Extract(T, 1, n - 1)
+        nonempty = n > 0
+        it.ctx.assume(z3.Implies(n == 0, f(T)))
+    else:
+        nonempty = z3.BoolVal(True)
+    if name == "all_elements":
+        body = z3.And(rec_is_elem(h), f(tl))
+    else:
+        body = z3.If(rec_is_elem(h), f(tl), z3.Length(tl) == 0)
+    it.ctx.assume(z3.Implies(nonempty, f(T) == body))
+
+
+def duepred_apply(it, name, T):
+    apps = it.ctx.__dict__.setdefault("duepred_apps", [])
+    if not any(k[0] == name and k[1].eq(T) for k in apps):
+        apps.append((name, T))
+        _duepred_unfold(it, name, T)
+        for (T2, h, tl) in it.ctx.__dict__.get("seqfun_pops", []):
+            if T2.eq(T):
+                _duepred_unfold(it, name, T, h, tl)
+        for (T0, r, T2) in it.ctx.__dict__.get("snoc_facts", []):
+            if T2.eq(T) or T0.eq(T):
+                _snoc_lemmas(it, T0, r, T2)
+    return DUEPREDS[name](T)
+
+
+def _snoc_lemmas(it, T, r, T2):
+    """instances of the two snoc lemmas (proved by structural induction in the seqlemma unit) at an append T2 = T ++ [r]:
+         all_elements(T)                      ==>  completion_last(T ++ [r])
+         all_elements(T) and is_element(r)    ==>  all_elements(T ++ [r])"""
+    AE, CL = DUEPREDS["all_elements"], DUEPREDS["completion_last"]
+    it.ctx.assume(z3.Implies(AE(T), CL(T2)))
+    it.ctx.assume(z3.Implies(z3.And(AE(T), rec_is_elem(r)), AE(T2)))
+
+
+def snoc_fact(it, T, r, T2):
+    """an append to a symbolic queue of notification records"""
+    it.ctx.__dict__.setdefault("snoc_facts", []).append((T, r, T2))
+    if it.ctx.__dict__.get("duepred_apps"):
+        _snoc_lemmas(it, T, r, T2)
 
 
 def duefun_apply(it, name, T, now):
@@ -730,6 +792,15 @@ def delitem(it, base, idx):
     if isinstance(base, ListObj) and not base.symbolic and isinstance(idx, int):
         del base.items[idx]
         return
+    if isinstance(base, ListObj) and isinstance(idx, SliceVal) and idx.lo is None and idx.hi is None and idx.step in (None, 1):
+        # del q[:]  - the list is emptied in place
+        if base.symbolic:
+            base.term = z3.Empty(smt.SeqVal)
+        else:
+            del base.items[:]
+        if it.list_hook is not None:
+            it.list_hook(it, base, "clear", [])
+        return
     if isinstance(base, Opaque):
         it.world.call(it, base, "__delitem__", [idx], {})
         return
@@ -744,7 +815,11 @@ def list_method(it, lst: ListObj, name):
     def append(it_, args, kw):
         (x,) = args
         if lst.symbolic:
-            lst.term = z3.Concat(lst.term, z3.Unit(it.elem_to_val(lst.elem, x)))
+            r = it.elem_to_val(lst.elem, x)
+            t2 = z3.Concat(lst.term, z3.Unit(r))
+            if lst.elem in ("tsnotif", "tupnotif"):
+                snoc_fact(it, lst.term, r, t2)
+            lst.term = t2
         else:
             lst.items.append(x)
 
